@@ -1218,7 +1218,9 @@ async fn run_case(cx: &Ctx<'_>, seed: u64, idx: u64, selftest: bool) -> (u64, u6
                     Some(c) => format!("accepted-write-unreadable:{c}:{}", eff_ver.name()),
                     // not reproducible outside the original file layout: the panic text of
                     // repdef.rs:1254 identifies the item-less page class
-                    None if e.msg().contains("Expected repetition level but data didn't contain repetition") => {
+                    None if e.msg().contains("Expected repetition level but data didn't contain repetition")
+                        || feats.contains(&"list-column-without-visible-leaf-items") =>
+                    {
                         format!("accepted-write-unreadable:list-column-without-visible-leaf-items:{}", eff_ver.name())
                     }
                     None => format!(
